@@ -1,3 +1,4 @@
+import Mathlib.Data.List.Induction
 import HioModel.Box.Model
 /-! helper lemmas for Props/C25.lean -/
 namespace Hio.Box
@@ -835,6 +836,131 @@ theorem mkForest_wf (ds : List Decl) (hover : ∀ (i : Nat) (d : Decl), ds[i]? =
     rw [mkForest_length]
     simp only [mkBox] at hg
     exact hgo d (List.mem_of_getElem? hd) g hg
+
+
+
+
+/-! ### piles are root paths: two piles that share a box agree above it -/
+
+theorem head?_append_ne_nil {α} : ∀ {l : List α} (r : List α), l ≠ [] → (l ++ r).head? = l.head?
+  | [], _, h => absurd rfl h
+  | _ :: _, _, _ => rfl
+
+theorem eq_nil_or_snoc {α} (l : List α) : l = [] ∨ ∃ l' b, l = l' ++ [b] := by
+  rcases List.eq_nil_or_concat l with h | ⟨l', b, h⟩
+  · exact Or.inl h
+  · exact Or.inr ⟨l', b, by rw [h, List.concat_eq_append]⟩
+
+theorem linked_prefix {F : Forest} : ∀ {l r : List Nat}, Linked F (l ++ r) → Linked F l
+  | [], _, _ => trivial
+  | [_], _, _ => trivial
+  | a :: b :: l, r, h => by
+    simp only [List.cons_append, Linked] at h ⊢
+    exact ⟨h.1, linked_prefix (l := b :: l) h.2⟩
+
+/-- a list that starts at a top-level box and steps from over to under -/
+def RootLinked (F : Forest) (l : List Nat) : Prop := Linked F l ∧ ∀ r ∈ l.head?, (F.box r).over = none
+
+theorem ups_root {F : Forest} (h : wf F = true) : ∀ (fuel i : Nat), i < F.length → i < fuel →
+    ∀ r ∈ (ups F fuel i ++ [i]).head?, (F.box r).over = none
+  | 0, _, _, hf => by omega
+  | fuel + 1, i, hi, hf => by
+    unfold ups
+    split
+    · next ho => intro r hr; simp at hr; subst hr; exact ho
+    · next p ho =>
+      have hw := wf_over h hi ho
+      intro r hr
+      have : ((ups F fuel p ++ [p]) ++ [i]).head? = (ups F fuel p ++ [p]).head? := by
+        rw [head?_append_ne_nil]; simp
+      rw [this] at hr
+      exact ups_root h fuel p (by omega) (by omega) r hr
+
+theorem pile_rootLinked {F : Forest} (h : wf F = true) {i : Nat} (hi : i < F.length) : RootLinked F (pile F i) := by
+  refine ⟨pile_linked h hi, ?_⟩
+  intro r hr
+  have : (pile F i).head? = (ups F F.length i ++ [i]).head? := by
+    unfold pile
+    cases ups F F.length i <;> simp
+  rw [this] at hr
+  exact ups_root h _ i hi hi r hr
+
+/-- the path from a top-level box down to `x` is unique -/
+theorem rootpath_unique {F : Forest} {x : Nat} : ∀ (l1 l2 : List Nat),
+    RootLinked F (l1 ++ [x]) → RootLinked F (l2 ++ [x]) → l1 = l2 := by
+  intro l1
+  induction l1 using List.reverseRecOn generalizing x with
+  | nil =>
+    intro l2 h1 h2
+    rcases eq_nil_or_snoc l2 with rfl | ⟨l2', y, rfl⟩
+    · rfl
+    · exfalso
+      have := linked_split (l := l2' ++ [y]) (r := []) (x := x) h2.1 y (by simp)
+      have hr := h1.2 x (by simp)
+      rw [hr] at this; simp at this
+  | append_singleton l1' y ih =>
+    intro l2 h1 h2
+    have hy := linked_split (l := l1' ++ [y]) (r := []) (x := x) h1.1 y (by simp)
+    rcases eq_nil_or_snoc l2 with rfl | ⟨l2', y', rfl⟩
+    · exfalso
+      have hr := h2.2 x (by simp)
+      rw [hr] at hy; simp at hy
+    · have hy' := linked_split (l := l2' ++ [y']) (r := []) (x := x) h2.1 y' (by simp)
+      rw [hy] at hy'
+      have hyy : y = y' := by simpa using hy'
+      subst hyy
+      have e1 : RootLinked F (l1' ++ [y]) := by
+        refine ⟨linked_prefix (r := [x]) h1.1, ?_⟩
+        intro r hr
+        exact h1.2 r (by rw [head?_append_ne_nil _ (by simp)]; exact hr)
+      have e2 : RootLinked F (l2' ++ [y]) := by
+        refine ⟨linked_prefix (r := [x]) h2.1, ?_⟩
+        intro r hr
+        exact h2.2 r (by rw [head?_append_ne_nil _ (by simp)]; exact hr)
+      rw [ih l2' e1 e2]
+
+theorem rootLinked_common_prefix {F : Forest} {x : Nat} {p1 s1 p2 s2 : List Nat}
+    (h1 : RootLinked F (p1 ++ x :: s1)) (h2 : RootLinked F (p2 ++ x :: s2)) : p1 = p2 := by
+  apply rootpath_unique (x := x)
+  · refine ⟨linked_prefix (r := s1) (by simpa using h1.1), ?_⟩
+    intro r hr
+    refine h1.2 r ?_
+    cases p1 <;> simpa using hr
+  · refine ⟨linked_prefix (r := s2) (by simpa using h2.1), ?_⟩
+    intro r hr
+    refine h2.2 r ?_
+    cases p2 <;> simpa using hr
+
+/-- two root paths that fork (`l0 ≠ r0` after the common part `kept`) share nothing below the fork -/
+theorem fork_disjoint {F : Forest} {kept t1 t2 : List Nat} {l0 r0 : Nat}
+    (h1 : RootLinked F (kept ++ l0 :: t1)) (h2 : RootLinked F (kept ++ r0 :: t2))
+    (hn : (kept ++ l0 :: t1).Nodup) (hne : l0 ≠ r0) : ∀ x ∈ l0 :: t1, x ∉ kept ++ r0 :: t2 := by
+  intro x hx hx2
+  obtain ⟨pa, sa, ha⟩ := List.append_of_mem (List.mem_append_right kept hx)
+  obtain ⟨pd, sd, hd⟩ := List.append_of_mem hx2
+  have hpp : pa = pd := rootLinked_common_prefix (ha ▸ h1) (hd ▸ h2)
+  subst hpp
+  rcases List.append_eq_append_iff.mp ha with ⟨c, hc1, hc2⟩ | ⟨c, hc1, hc2⟩
+  · -- pa = kept ++ c
+    subst hc1
+    rw [List.append_assoc] at hd
+    have hd' := List.append_cancel_left hd
+    cases c with
+    | nil => simp at hc2 hd'; exact hne (hc2.1.trans hd'.1.symm)
+    | cons c0 c' => simp at hc2 hd'; exact hne (hc2.1.trans hd'.1.symm)
+  · -- kept = pa ++ c, x :: sa = c ++ l0 :: t1
+    cases c with
+    | nil =>
+      simp at hc1 hc2
+      subst hc1
+      have hd' := List.append_cancel_left hd
+      simp at hd'
+      exact hne (hc2.1.symm.trans hd'.1.symm)
+    | cons c0 c' =>
+      simp at hc2
+      have hxk : x ∈ kept := by rw [hc1]; simp [hc2.1]
+      rw [List.nodup_append] at hn
+      exact hn.2.2 x hxk x hx rfl
 
 
 end Hio.Box
